@@ -97,6 +97,8 @@ type Sim struct {
 	// OnEmit is called (driver goroutine, quiescent) for every datagram handed
 	// to a simulated conn, in sorted order, before its fate is decided.
 	OnEmit func(p *OutPkt)
+	// BeforeStep runs on the driver before every released stimulus.
+	BeforeStep func()
 	// DoneKey, if set, orders the completions processed in one drain.
 	DoneKey func(a *Actor, res any) string
 	// IsPost reports whether a datagram was emitted after Close of its session.
@@ -275,6 +277,9 @@ func (s *Sim) Run(finished func() bool) {
 		ev := heap.Pop(&s.heap).(*event)
 		s.Steps++
 		s.L.Shape(ev.kind)
+		if s.BeforeStep != nil {
+			s.BeforeStep()
+		}
 		ev.run()
 	}
 }
@@ -572,6 +577,9 @@ type YieldCtl struct {
 	Hits  map[string]int // site -> hits seen (under Sim.mu)
 	// From/To: only hits in [From,To) of a site park.
 	From, To map[string]int
+	// Active, if non-nil, replaces the hit windows: the driver sets it before
+	// every step (SetActive).
+	Active map[string]bool
 }
 
 // yield is installed as kcp.VerifYield. An armed site parks the calling
@@ -584,11 +592,20 @@ func (s *Sim) yield(site string) {
 		s.mu.Unlock()
 		return
 	}
-	h := y.Hits[site]
-	y.Hits[site] = h + 1
-	if h < y.From[site] || h >= y.To[site] {
-		s.mu.Unlock()
-		return
+	if y.Active != nil {
+		// decided by the driver once per step: every hit of the site within one
+		// cascade gets the same answer, whichever goroutine comes first
+		if !y.Active[site] {
+			s.mu.Unlock()
+			return
+		}
+	} else {
+		h := y.Hits[site]
+		y.Hits[site] = h + 1
+		if h < y.From[site] || h >= y.To[site] {
+			s.mu.Unlock()
+			return
+		}
 	}
 	who := s.goids[goid()]
 	p := &parkedG{site: site, who: who, ch: make(chan struct{}), since: s.Now()}
@@ -596,6 +613,13 @@ func (s *Sim) yield(site string) {
 	s.mu.Unlock()
 	s.pokeDriver()
 	<-p.ch
+}
+
+// SetActive sets, for the coming step, which armed sites park.
+func (s *Sim) SetActive(site string, on bool) {
+	s.mu.Lock()
+	s.Yield.Active[site] = on
+	s.mu.Unlock()
 }
 
 // Hits returns how often a yield site has been passed so far.
